@@ -68,7 +68,7 @@ def wrapper_source(kernels):
             body.append(f"  *({G} int64_t*) out = (int64_t) {name}({', '.join(call_args)});")
         else:
             continue
-        src.append(f"/*gpukern*/\nvoid xw_{name}({tname} obj, {G} const int64_t* idx, {G} char* out){{\n" + "\n".join(body) + "\n}")
+        src.append(f"/*gpukern*/\nvoid xw_{name}({tname} obj, {G} const int64_t* idx, {G} int8_t* out_){{\n  {G} char* out = ({G} char*) out_;\n" + "\n".join(body) + "\n}")
         desc["xw_" + name] = xo.Kernel(args=[xo.Arg(obj.atype, name="obj"), xo.Arg(xo.Int64, pointer=True, const=True, name="idx"), xo.Arg(xo.Int8, pointer=True, name="out")], n_threads=1, c_name="xw_" + name)
     return "\n".join(src) + "\n", desc
 
@@ -121,7 +121,7 @@ class AccSim:
                 shape = [rng.choice([70000, 2**16 + 1, 50000]), rng.choice([70000, 2**16 + 3, 40000])]
             idx = [[d - 1 - rng.choice([0, 1, 5]) for d in shape], [d // 2 + 1 for d in shape], [0 for _ in shape]]
             big.append({"item": item, "shape": shape, "idx": idx})
-        spec["acc"] = {"big": big, "profile": profile, "omp": rng.choice([2, "auto"]), "sanitize": True, "nset": rng.choice([2, 6, 12]), "set_seed": rng.getrandbits(30)}
+        spec["acc"] = {"cpu_first": rng.random() < 0.4, "big": big, "profile": profile, "omp": rng.choice([2, "auto"]), "sanitize": True, "nset": rng.choice([2, 6, 12]), "set_seed": rng.getrandbits(30)}
         return spec
 
     def run(self, prop, profile, rng=None, replay=None, tier="quick"):
@@ -225,6 +225,17 @@ class AccSim:
             return viols
         wsrc, wdesc = wrapper_source(kern)
         res.probe("accessors_generated", len(kern))
+        if spec["acc"].get("cpu_first"):
+            # history of the process: the usual order of events — a real (compiled) CPU build of the
+            # same classes first, the other targets afterwards. Nothing the CPU build leaves behind in
+            # the library may change what is generated for the next target.
+            try:
+                _, d0 = wrapper_source(kern)
+                xo.ContextCpu().add_kernels(kernels=d0, sources=[wsrc], extra_classes=list(roots), extra_compile_args=("-O0", "-Wno-unused-function"), extra_link_args=("-O0",))
+                res.fault("earlier_cpu_build_in_process")
+            except Exception as e:
+                viol("C14", "accessor_build_failed", [type(e).__name__], f"{type(e).__name__}: {str(e)[-800:]}")
+                return viols
         # ---- specialise and build for the four targets through the real context code
         # (lens C07 needs the cpu_serial text only: its oracle is the sanitizer run below)
         targets = ["cpu_serial"] if prop == "C07" else TARGETS
